@@ -103,9 +103,12 @@ func (c10) Gen(rs uint64, tier string, race bool) interface{} {
 			// one recombination between rows that differ in every column
 			c.Aln = tinyAln(4, 4)
 			c.A, c.B = 0.25, r.PickS0(0.25, 0.5)
-		case "mutate", "shuffle-sites":
+		case "mutate":
 			c.A = r.PickS0(0.5, 1)
 			c.B = 0
+		case "shuffle-sites":
+			c.A = r.PickS0(0.5, 1)
+			c.B = r.PickS0(0, 0, 0.5) // with rogue rows: further sites, among those left intact, are shuffled for them
 		}
 		if c.Op != "bootstrap" && r.Chance(0.012) {
 			c.ViaCli = true
@@ -966,11 +969,14 @@ func (c10) Run(ctx *Ctx, ci interface{}) (o Outcome) {
 				note("first changed column", fmt.Sprint(first))
 			}
 		case "shuffle-sites":
+			changed := 0
 			for j := 0; j < L; j++ {
 				if colOf(res.seqs, j) != colOf(os, j) {
 					note("shuffled site", fmt.Sprint(j))
+					changed++
 				}
 			}
+			note("number of changed sites", fmt.Sprint(changed))
 		}
 	}
 	rng := func(lo, hi int) []string {
@@ -1016,6 +1022,12 @@ func (c10) Run(ctx *Ctx, ci interface{}) (o Outcome) {
 			want["first changed column"] = rng(0, L-w+1)
 		}
 	case "shuffle-sites":
+		// with at least two rogue rows, int(rate*(1-rate)*L) sites beyond the int(rate*L) shuffled for everybody are
+		// shuffled among the rogues: that many sites can change at once (rows of the tiny alignments differ in every
+		// column, the first and the fifth row apart: probability > 0.2 per execution)
+		if extra := int(c.A * (1 - c.A) * float64(L)); c.B > 0 && int(c.B*float64(n)) >= 2 && extra >= 1 && !c.ViaCli {
+			want["number of changed sites"] = []string{fmt.Sprint(int(c.A*float64(L)) + extra)}
+		}
 		// every column that holds two kinds of characters
 		for j := 0; j < L; j++ {
 			if col := colOf(os, j); strings.Count(col, col[:1]) != len(col) {
